@@ -1,4 +1,5 @@
-import GoomVerif.Lemmas.C02L
+import GoomVerif.Lemmas.C02B
+import GoomVerif.Props.C15
 /-! # C02 — Reset/Cancel restore behaviour and the exact bytes; only entry jumps differ
 
 All statements are about `Patch.step`/`Patch.run` (Model/Patch.lean), for every measured environment `env` whose functions
@@ -269,6 +270,49 @@ theorem other_targets_untouched {env : Env} (he : EnvOk env) {s : St} (hi : Inv 
       simp only []
       rw [(doKeep_spec ir r.2 b key).2, tr]
 
+/-- **Looking the struct mocker up again returns the same one.**  `b.Struct(x)` hands out the cached `*CachedMethodMocker`
+    as long as its `Canceled()` is false — also before its first `.Method()` call, when it has no children yet — so mocks
+    made through a kept `sm := b.Struct(x)` and through later `b.Struct(x)` lookups live in the same child cache, which is the
+    one `Reset` walks (`resetB`, `reset_restores` with the struct mocker as cache owner). -/
+theorem struct_lookup_stable (s : St) (b o : Nat) (hc : s.scache b = some o) (hn : s.scanceled o = false) :
+    getStruct s b = (s, o) := by
+  unfold getStruct
+  simp [hc, hn]
+
+/-- re-mock through any cache owner whose entry for the key is cancelled (or absent): `Apply` succeeds -/
+theorem remock_core {env : Env} (he : EnvOk env) {s1 : St} (i1 : Inv env s1) (o key k : Nat)
+    (hcan : ∀ id, s1.cache o key = some id → (s1.mockers id).canceled = true)
+    (hsz : 13 < env.funcSize (key % 1000))
+    (hnop : Gen.Amd64.checkAlreadyPatch ((env.pristine (key % 1000)).take 13) = false) :
+    (doApply env s1 o key k none).2 = none ∧
+    (doApply env s1 o key k none).1.text (key % 1000) = overwrite (env.pristine (key % 1000)) (jumpTo (env.cbAddr k)) := by
+  -- the mocker handed out is fresh: no sticky Origin
+  have hfresh : ((getMocker s1 o key).1.mockers (getMocker s1 o key).2).origin = none ∧
+      ((getMocker s1 o key).1.mockers (getMocker s1 o key).2).target = key % 1000 := by
+    refine ⟨?_, (getMocker_spec i1 o key).2.2.1⟩
+    unfold getMocker
+    cases hc : s1.cache o key with
+    | none => simp [getMocker.fresh, upd]
+    | some id => simp [hcan id hc, getMocker.fresh, upd]
+  obtain ⟨g1, g2, g3, _, _⟩ := getMocker_spec i1 o key
+  -- replaceFunc takes the success exit
+  have hok : (applyImp env (getMocker s1 o key).1 (getMocker s1 o key).2 (.cb k)).2 = none := by
+    have hp := (unpatchValue_spec he g1 (key % 1000)).2.1
+    unfold applyImp replaceFunc
+    simp only [hfresh.1, hfresh.2, C02L.jump_length, register]
+    have : ¬ (13 ≥ env.funcSize (key % 1000)) := by omega
+    simp only [this, if_false, hp, hnop]
+    simp [mkGuard]
+  have a := applyImp_spec he g1 (getMocker s1 o key).2 (.cb k)
+  have c := applyCb_spec he g1 (getMocker s1 o key).2 k
+  have hstep : doApply env s1 o key k none = applyCb env (getMocker s1 o key).1 (getMocker s1 o key).2 k := rfl
+  rw [hstep]
+  refine ⟨by rw [c.2.2.1]; exact hok, ?_⟩
+  have := a.2.2.1 hok
+  rw [hfresh.2] at this
+  rw [c.2.1]
+  exact this
+
 /-- **Re-mock after Reset works.** After any history followed by `Reset b`, `b.…Apply(cb k)` on a key of `b` (no `Origin`)
     succeeds whenever goom's own preconditions hold for the target (longer than the jump, first byte not the NOP sentinel),
     and leaves exactly the jump to the callback over the pristine bytes. -/
@@ -281,38 +325,53 @@ theorem remock_after_reset {env : Env} (he : EnvOk env) (ops : List Op) (b key k
   intro s1
   have hi := reachable_inv_init he ops
   obtain ⟨i1, c1, _, cn1, _⟩ := resetB_spec he hi b
-  have i1' : Inv env s1 := i1
-  -- the mocker handed out after Reset is fresh: no sticky Origin
-  have hfresh : ((getMocker s1 b key).1.mockers (getMocker s1 b key).2).origin = none ∧
-      ((getMocker s1 b key).1.mockers (getMocker s1 b key).2).target = key % 1000 := by
-    refine ⟨?_, (getMocker_spec i1' b key).2.2.1⟩
-    unfold getMocker
-    cases hc : s1.cache b key with
-    | none => simp [getMocker.fresh, upd]
-    | some id =>
-      have hc0 : (run env (init env) ops).cache b key = some id := by
-        have : s1.cache = (run env (init env) ops).cache := c1
-        rw [← this]; exact hc
-      have hcan : (s1.mockers id).canceled = true := cn1 key id hc0
-      simp [hcan, getMocker.fresh, upd]
-  obtain ⟨g1, g2, g3, _, _⟩ := getMocker_spec i1' b key
-  -- replaceFunc takes the success exit
-  have hok : (applyImp env (getMocker s1 b key).1 (getMocker s1 b key).2 (.cb k)).2 = none := by
-    have hp := (unpatchValue_spec he g1 (key % 1000)).2.1
-    unfold applyImp replaceFunc
-    simp only [hfresh.1, hfresh.2, C02L.jump_length, register]
-    have : ¬ (13 ≥ env.funcSize (key % 1000)) := by omega
-    simp only [this, if_false, hp, hnop]
-    simp [mkGuard]
-  have a := applyImp_spec he g1 (getMocker s1 b key).2 (.cb k)
-  have c := applyCb_spec he g1 (getMocker s1 b key).2 k
-  have hstep : step env s1 (.apply b key k none) = applyCb env (getMocker s1 b key).1 (getMocker s1 b key).2 k := rfl
+  refine remock_core he i1 b key k ?_ hsz hnop
+  intro id hc
+  exact cn1 key id (by rw [← c1]; exact hc)
+
+/-- no operation changes what `Canceled()` answers for a struct mocker: it stays false -/
+theorem scanceled_never {env : Env} (ops : List Op) (o : Nat) : (run env (init env) ops).scanceled o = false := by
+  have key : ∀ (ops : List Op) (s : St), (run env s ops).scanceled = s.scanceled := by
+    intro ops
+    induction ops with
+    | nil => intro s; rfl
+    | cons op ops ih => intro s; show (run env (step env s op).1 ops).scanceled = _; rw [ih, step_scanceled]
+  rw [key]; rfl
+
+/-- **Re-mock after Reset works for method keys too** (vias `Struct(x).Method(m)` / `.ExportMethod(m)`): after any history
+    followed by `Reset b`, `Apply(cb k)` on a method key — through a fresh `b.Struct(x)` lookup (`kept = false`) or through
+    the kept struct mocker (`kept = true`), provided that one is the builder's struct mocker `o` — succeeds under goom's own
+    preconditions and leaves exactly the jump to the callback. -/
+theorem remock_after_reset_struct {env : Env} (he : EnvOk env) (ops : List Op) (b key k o : Nat) (kept : Bool)
+    (hsc : (run env (init env) ops).scache b = some o)
+    (hkept : kept = true → (run env (init env) ops).shandle b = some o)
+    (hsz : 13 < env.funcSize (key % 1000))
+    (hnop : Gen.Amd64.checkAlreadyPatch ((env.pristine (key % 1000)).take 13) = false) :
+    let s1 := (step env (run env (init env) ops) (.reset b)).1
+    (step env s1 (.sapply b key k none kept)).2 = none ∧
+    (step env s1 (.sapply b key k none kept)).1.text (key % 1000) = overwrite (env.pristine (key % 1000)) (jumpTo (env.cbAddr k)) := by
+  intro s1
+  have hi := reachable_inv_init he ops
+  obtain ⟨i1, c1, sc1, _, cn2⟩ := resetB_spec he hi b
+  have haux := resetB_aux (run env (init env) ops) b
+  have hscan : s1.scanceled o = false := by
+    have e : s1.scanceled = (run env (init env) ops).scanceled := congrArg (fun t => t.2.2.2.2.2.1) haux
+    rw [e]; exact scanceled_never ops o
+  have hsh : s1.shandle = (run env (init env) ops).shandle := congrArg (fun t => t.2.2.2.2.2.2) haux
+  have hsc1 : s1.scache b = some o := by
+    have : s1.scache = (run env (init env) ops).scache := sc1
+    rw [this]; exact hsc
+  have hst : structOf s1 b kept = some (s1, o) := by
+    unfold structOf
+    cases kept with
+    | true => simp [hsh, hkept rfl]
+    | false => simp [struct_lookup_stable s1 b o hsc1 hscan]
+  have hstep : step env s1 (.sapply b key k none kept) = doApply env s1 o key k none := by
+    simp [step, hst]
   rw [hstep]
-  refine ⟨by rw [c.2.2.1]; exact hok, ?_⟩
-  have := a.2.2.1 hok
-  rw [hfresh.2] at this
-  rw [c.2.1]
-  exact this
+  refine remock_core he i1 o key k ?_ hsz hnop
+  intro id hc
+  exact cn2 o key id hsc (by rw [← c1]; exact hc)
 
 /-- **A kept handle that is re-applied is live again for the builder.**  If the handle kept for (b, key) is the builder's
     cache entry and `Apply` through it succeeds (e.g. after the handle's own `Cancel`), the next builder lookup of the same
@@ -329,14 +388,266 @@ theorem relookup_after_handle_apply {env : Env} (he : EnvOk env) {s : St} (hi : 
   unfold getMocker
   simp [hcache, c5 hok]
 
-/-- **Looking the struct mocker up again returns the same one.**  `b.Struct(x)` hands out the cached `*CachedMethodMocker`
-    as long as its `Canceled()` is false — also before its first `.Method()` call, when it has no children yet — so mocks
-    made through a kept `sm := b.Struct(x)` and through later `b.Struct(x)` lookups live in the same child cache, which is the
-    one `Reset` walks (`resetB`, `reset_restores` with the struct mocker as cache owner). -/
-theorem struct_lookup_stable (s : St) (b o : Nat) (hc : s.scache b = some o) (hn : s.scanceled o = false) :
-    getStruct s b = (s, o) := by
-  unfold getStruct
-  simp [hc, hn]
+/-! ## behaviour classes -/
+
+/-- **The entry jump dispatches to the funcval it names** (C15's `amd64_entry` for the regenerated emitter): executing the 13
+    bytes `jumpTo a` at any entry address loads `RDX := a` and continues at the code pointer stored in the funcval, `[a]`. -/
+theorem entry_dispatch (e a : BitVec 64) (m : X86.Mach) :
+    X86.exec (jumpTo a) { m with rip := e } = some { m with rip := m.mem64 a, rdx := a } :=
+  C15.amd64_entry e a m
+
+/-- **The behaviour class is determined by the entry bytes** (any state, distinct funcvals at distinct addresses):
+    pristine entry ⇒ `orig`; the jump to callback `k`'s funcval ⇒ `cb k`; the jump to the `n`-th MakeFunc stub ⇒ `stub n`. -/
+theorem behaviour_of_text {env : Env} {nCb nS : Nat} (ha : AddrOk env nCb nS) (s : St) (f : Nat) (hS : s.nStubs ≤ nS) :
+    ((s.text f).take 13 = (env.pristine f).take 13 → behaviour env s nCb f = .orig) ∧
+    (∀ k, k < nCb → (s.text f).take 13 = jumpTo (env.cbAddr k) → jumpTo (env.cbAddr k) ≠ (env.pristine f).take 13 →
+      behaviour env s nCb f = .cb k) ∧
+    (∀ n, n < s.nStubs → (s.text f).take 13 = jumpTo (env.stubAddr n) → jumpTo (env.stubAddr n) ≠ (env.pristine f).take 13 →
+      behaviour env s nCb f = .stub n) := by
+  refine ⟨fun h => by simp [behaviour, h], ?_, ?_⟩
+  · intro k hk h hne
+    have hfind : (List.range nCb).find? (fun k' => decide ((s.text f).take 13 = jumpTo (env.cbAddr k'))) = some k := by
+      apply find?_unique _ k _ (List.mem_range.mpr hk) (by simp [h])
+      intro x hx hp
+      have hp' : (s.text f).take 13 = jumpTo (env.cbAddr x) := by simpa using hp
+      exact ha.cb_inj x k (List.mem_range.mp hx) hk (jumpTo_inj _ _ (by rw [← hp', h]))
+    unfold behaviour
+    simp only []
+    rw [if_neg (by rw [h]; exact hne), hfind]
+  · intro n hn h hne
+    have hcb : (List.range nCb).find? (fun k' => decide ((s.text f).take 13 = jumpTo (env.cbAddr k'))) = none := by
+      rw [List.find?_eq_none]
+      intro x hx hp
+      have hp' : (s.text f).take 13 = jumpTo (env.cbAddr x) := by simpa using hp
+      exact ha.disjoint x n (by omega) (jumpTo_inj _ _ (by rw [← hp', h]))
+    have hfind : (List.range s.nStubs).find? (fun n' => decide ((s.text f).take 13 = jumpTo (env.stubAddr n'))) = some n := by
+      apply find?_unique _ n _ (List.mem_range.mpr hn) (by simp [h])
+      intro x hx hp
+      have hp' : (s.text f).take 13 = jumpTo (env.stubAddr x) := by simpa using hp
+      have := List.mem_range.mp hx
+      exact ha.stub_inj x n (by omega) (by omega) (jumpTo_inj _ _ (by rw [← hp', h]))
+    unfold behaviour
+    simp only []
+    rw [if_neg (by rw [h]; exact hne), hcb]
+    simp only []
+    rw [hfind]
+
+/-- **Ownership, all histories.** -/
+theorem reachable_own {env : Env} (he : EnvOk env) (ops : List Op) : ∀ {s : St}, Inv env s → Own env s → Own env (run env s ops) := by
+  induction ops with
+  | nil => intro s _ ho; exact ho
+  | cons op ops ih => intro s hi ho; exact ih (inv_step he hi op) (own_step he hi ho op)
+
+/-- what the entry bytes of `f` are in a state satisfying both invariants -/
+theorem entry_cases {env : Env} (he : EnvOk env) {s : St} (hi : Inv env s) (ho : Own env s) (f : Nat) :
+    s.text f = env.pristine f ∨
+    ∃ id imp, id < s.nMockers ∧ (s.mockers id).target = f ∧ (s.mockers id).imp = some imp ∧ (s.mockers id).canceled = false ∧
+      s.text f = overwrite (env.pristine f) (jumpTo (impAddr env imp)) ∧
+      (s.text f).take 13 = jumpTo (impAddr env imp) ∧ jumpTo (impAddr env imp) ≠ (env.pristine f).take 13 ∧
+      (∀ n, imp = .stub n → (s.mockers id).hasWhen = true ∧ n < s.nStubs) := by
+  rcases hi.txt f with h | ⟨p, g, h1, h2, h3, h4⟩
+  · exact Or.inl h
+  · by_cases hp : s.text f = env.pristine f
+    · exact Or.inl hp
+    · right
+      obtain ⟨id, imp, hlt, hg, him, hj, hc, hs⟩ := ho.own f p g trivial h1 h2 h3 hp
+      have hr := hi.reg f p g h1 h2
+      have htg : (s.mockers id).target = f := by rw [← (hi.mg id g hg).2]; exact hr.2
+      rw [hj] at h4
+      refine ⟨id, imp, hlt, htg, him, hc, h4, ?_, ?_, hs⟩
+      · rw [h4]; have := overwrite_takeJ (env.pristine f) (jumpTo (impAddr env imp)); rw [C02L.jump_length] at this; exact this
+      · intro e
+        apply hp
+        rw [h4, e]
+        exact overwrite_take _ _ (by have := he f; omega)
+
+/-- **Behaviour classes over all reachable states.**  After any history, every function either has its pristine bytes and
+    class `orig`, or its entry is exactly the jump to the current implementation of an allocated, not cancelled mocker `μ`
+    of that function: class `cb k` if `μ.imp` is callback `k`, class `stub n` if it is the `n`-th MakeFunc stub — and then
+    `μ` still owns the `When` that stub serves (`hasWhen`). -/
+theorem behaviour_reachable {env : Env} {nCb nS : Nat} (he : EnvOk env) (ha : AddrOk env nCb nS) (ops : List Op) (f : Nat)
+    (hS : (run env (init env) ops).nStubs ≤ nS) :
+    let s := run env (init env) ops
+    (s.text f = env.pristine f ∧ behaviour env s nCb f = .orig) ∨
+    ∃ μ imp, μ < s.nMockers ∧ (s.mockers μ).target = f ∧ (s.mockers μ).imp = some imp ∧ (s.mockers μ).canceled = false ∧
+      s.text f = overwrite (env.pristine f) (jumpTo (impAddr env imp)) ∧ s.text f ≠ env.pristine f ∧
+      (∀ k, imp = .cb k → k < nCb → behaviour env s nCb f = .cb k) ∧
+      (∀ n, imp = .stub n → (s.mockers μ).hasWhen = true ∧ behaviour env s nCb f = .stub n) := by
+  intro s
+  have hi : Inv env s := reachable_inv_init he ops
+  have ho : Own env s := reachable_own he ops (inv_init env) (own_init env)
+  rcases entry_cases he hi ho f with h | ⟨id, imp, hlt, htg, him, hc, h4, h5, h6, hs⟩
+  · exact Or.inl ⟨h, (behaviour_of_text ha s f hS).1 (by rw [h])⟩
+  · right
+    refine ⟨id, imp, hlt, htg, him, hc, h4, ?_, ?_, ?_⟩
+    · intro e; apply h6; rw [← h5, e]
+    · intro k hk hlt'; subst hk; exact (behaviour_of_text ha s f hS).2.1 k hlt' h5 h6
+    · intro n hn; subst hn
+      exact ⟨(hs n rfl).1, (behaviour_of_text ha s f hS).2.2 n (hs n rfl).2 h5 h6⟩
+
+/-- **A step that does not write `g` does not change `g`'s class** (reachable states; the stub counter may grow). -/
+theorem behaviour_stable {env : Env} {nCb nS : Nat} (he : EnvOk env) (ha : AddrOk env nCb nS) (ops : List Op) (op : Op) (g : Nat)
+    (hS : (step env (run env (init env) ops) op).1.nStubs ≤ nS) :
+    let s := run env (init env) ops
+    (step env s op).1.text g = s.text g → behaviour env (step env s op).1 nCb g = behaviour env s nCb g := by
+  intro s htx
+  have hS : (step env s op).1.nStubs ≤ nS := hS
+  have hi : Inv env s := reachable_inv_init he ops
+  have ho : Own env s := reachable_own he ops (inv_init env) (own_init env)
+  have hmono := step_nStubs_mono env s op
+  rcases entry_cases he hi ho g with h | ⟨id, imp, _, _, _, _, _, h5, h6, hs⟩
+  · rw [(behaviour_of_text ha s g (by omega)).1 (by rw [h]), (behaviour_of_text ha _ g hS).1 (by rw [htx, h])]
+  · -- same bytes, and the stub search finds the same thing in the longer range
+    have hsearch : (List.range (step env s op).1.nStubs).find? (fun n => decide ((s.text g).take 13 = jumpTo (env.stubAddr n)))
+        = (List.range s.nStubs).find? (fun n => decide ((s.text g).take 13 = jumpTo (env.stubAddr n))) := by
+      cases imp with
+      | cb k =>
+        have hn : ∀ N, N ≤ nS → (List.range N).find? (fun n => decide ((s.text g).take 13 = jumpTo (env.stubAddr n))) = none := by
+          intro N hN
+          rw [List.find?_eq_none]
+          intro x hx hp
+          have hp' : (s.text g).take 13 = jumpTo (env.stubAddr x) := by simpa using hp
+          have := List.mem_range.mp hx
+          exact ha.disjoint k x (by omega) (jumpTo_inj _ _ (by have h5' : (s.text g).take 13 = jumpTo (env.cbAddr k) := h5; rw [← h5', hp']))
+        rw [hn _ hS, hn _ (by omega)]
+      | stub n =>
+        have hlt := (hs n rfl).2
+        have hn : ∀ N, n < N → N ≤ nS → (List.range N).find? (fun n' => decide ((s.text g).take 13 = jumpTo (env.stubAddr n'))) = some n := by
+          intro N hN hN'
+          apply find?_unique _ n _ (List.mem_range.mpr hN) (by simp [h5, impAddr])
+          intro x hx hp
+          have hp' : (s.text g).take 13 = jumpTo (env.stubAddr x) := by simpa using hp
+          have := List.mem_range.mp hx
+          exact ha.stub_inj x n (by omega) (by omega) (jumpTo_inj _ _ (by rw [← hp', h5]; rfl))
+        rw [hn _ (by omega) hS, hn _ hlt (by omega)]
+    unfold behaviour
+    simp only [htx, hsearch]
+
+/-- the function and callback an `Apply` goes to, for every way of reaching the mocker: builder lookup, struct-level lookup
+    (fresh or through a kept struct mocker), kept mocker handle -/
+def applyTarget (s : St) : Op → Option (Nat × Nat)
+  | .apply _ key k _ => some (key % 1000, k)
+  | .sapply b key k _ kept => (structOf s b kept).map (fun _ => (key % 1000, k))
+  | .applyH b key k => (s.handle b key).map (fun id => ((s.mockers id).target, k))
+  | _ => none
+
+/-- the function a `Return`/`When` goes to -/
+def retTarget (s : St) : Op → Option Nat
+  | .ret _ key _ => some (key % 1000)
+  | .sret b key _ kept => (structOf s b kept).map (fun _ => key % 1000)
+  | .retH b key => (s.handle b key).map (fun id => (s.mockers id).target)
+  | _ => none
+
+/-- **After a successful `Apply(cb k)` — through any via — the target's class is exactly `cb k`**, its bytes are the jump to
+    that callback over the pristine bytes (which `entry_dispatch` says enters the callback's funcval). -/
+theorem apply_class {env : Env} {nCb nS : Nat} (he : EnvOk env) (ha : AddrOk env nCb nS) {s : St} (hi : Inv env s) (op : Op) (t k : Nat)
+    (hop : applyTarget s op = some (t, k)) (hok : (step env s op).2 = none) (hk : k < nCb) (hS : (step env s op).1.nStubs ≤ nS) :
+    (step env s op).1.text t = overwrite (env.pristine t) (jumpTo (env.cbAddr k)) ∧
+    behaviour env (step env s op).1 nCb t = .cb k := by
+  have key : (step env s op).1.text t = overwrite (env.pristine t) (jumpTo (env.cbAddr k)) ∧
+      jumpTo (env.cbAddr k) ≠ (env.pristine t).take 13 := by
+    cases op with
+    | apply b key k' origin =>
+      simp only [applyTarget, Option.some.injEq, Prod.mk.injEq] at hop
+      obtain ⟨rfl, rfl⟩ := hop
+      exact doApply_ok he hi b key k' origin hok
+    | sapply b key k' origin kept =>
+      simp only [applyTarget] at hop
+      cases hs : structOf s b kept with
+      | none => rw [hs] at hop; cases hop
+      | some r =>
+        rw [hs] at hop
+        simp only [Option.map_some, Option.some.injEq, Prod.mk.injEq] at hop
+        obtain ⟨rfl, rfl⟩ := hop
+        simp only [step, hs] at hok ⊢
+        exact doApply_ok he (structOf_spec hi b kept r hs).1 r.2 key k' origin hok
+    | applyH b key k' =>
+      simp only [applyTarget] at hop
+      cases hh : s.handle b key with
+      | none => rw [hh] at hop; cases hop
+      | some id =>
+        rw [hh] at hop
+        simp only [Option.map_some, Option.some.injEq, Prod.mk.injEq] at hop
+        obtain ⟨rfl, rfl⟩ := hop
+        simp only [step, hh] at hok ⊢
+        obtain ⟨_, c2, c3, _, _⟩ := applyCb_spec he hi id k'
+        have h' : (applyImp env s id (.cb k')).2 = none := by rw [← c3]; exact hok
+        exact ⟨by rw [c2]; exact (applyImp_spec he hi id (.cb k')).2.2.1 h', applyImp_ok_ne he hi id (.cb k') h'⟩
+    | _ => simp [applyTarget] at hop
+  refine ⟨key.1, (behaviour_of_text ha _ t hS).2.1 k hk ?_ key.2⟩
+  rw [key.1]
+  have := overwrite_takeJ (env.pristine t) (jumpTo (env.cbAddr k)); rw [C02L.jump_length] at this; exact this
+
+/-- **After a successful `Return`/`When` that builds a new `When` — through any via — the target's class is exactly the
+    new stub**, the stub counter grew by one, and the entry is the jump to that stub over the pristine bytes. -/
+theorem ret_class {env : Env} {nCb nS : Nat} (he : EnvOk env) (ha : AddrOk env nCb nS) {s : St} (hi : Inv env s) (op : Op) (t : Nat)
+    (hop : retTarget s op = some t) (hok : (step env s op).2 = none) (hnew : (step env s op).1.nStubs = s.nStubs + 1)
+    (hS : (step env s op).1.nStubs ≤ nS) :
+    (step env s op).1.text t = overwrite (env.pristine t) (jumpTo (env.stubAddr s.nStubs)) ∧
+    behaviour env (step env s op).1 nCb t = .stub s.nStubs := by
+  have fresh : ∀ (s0 : St) (o key : Nat) (origin : Option Nat), (doRet env s0 o key origin).1.nStubs = s0.nStubs + 1 →
+      ((setOrigin (getMocker s0 o key).1 (getMocker s0 o key).2 origin).mockers (getMocker s0 o key).2).hasWhen = false := by
+    intro s0 o key origin h
+    cases hw : ((setOrigin (getMocker s0 o key).1 (getMocker s0 o key).2 origin).mockers (getMocker s0 o key).2).hasWhen with
+    | false => rfl
+    | true =>
+      exfalso
+      have e : (setOrigin (getMocker s0 o key).1 (getMocker s0 o key).2 origin).nStubs = s0.nStubs := by
+        rw [aux_ns (setOrigin_aux _ _ _), getMocker_nStubs]
+      unfold doRet at h
+      simp only [hw, if_true] at h
+      omega
+  have key : (step env s op).1.text t = overwrite (env.pristine t) (jumpTo (env.stubAddr s.nStubs)) ∧
+      jumpTo (env.stubAddr s.nStubs) ≠ (env.pristine t).take 13 := by
+    cases op with
+    | ret b key origin =>
+      simp only [retTarget, Option.some.injEq] at hop
+      subst hop
+      have r := doRet_ok he hi b key origin (fresh s b key origin hnew) hok
+      exact ⟨r.1, r.2.1⟩
+    | sret b key origin kept =>
+      simp only [retTarget] at hop
+      cases hs : structOf s b kept with
+      | none => rw [hs] at hop; cases hop
+      | some r =>
+        rw [hs] at hop
+        simp only [Option.map_some, Option.some.injEq] at hop
+        subst hop
+        simp only [step, hs] at hok hnew ⊢
+        have hn := structOf_nStubs s b kept r hs
+        rw [← hn] at hnew ⊢
+        have q := doRet_ok he (structOf_spec hi b kept r hs).1 r.2 key origin (fresh r.1 r.2 key origin hnew) hok
+        exact ⟨q.1, q.2.1⟩
+    | retH b key =>
+      simp only [retTarget] at hop
+      cases hh : s.handle b key with
+      | none => rw [hh] at hop; cases hop
+      | some id =>
+        rw [hh] at hop
+        simp only [Option.map_some, Option.some.injEq] at hop
+        subst hop
+        simp only [step, hh] at hok hnew ⊢
+        cases hw : (s.mockers id).hasWhen with
+        | true => simp only [hw, if_true] at hnew; omega
+        | false =>
+          simp only [hw, Bool.false_eq_true, if_false] at hok hnew ⊢
+          obtain ⟨w1, _, _, _, w5⟩ := whens_spec hi id
+          have a := (applyImp_spec he w1 id (.stub s.nStubs)).2.2.1 hok
+          have b' := applyImp_ok_ne he w1 id (.stub s.nStubs) hok
+          rw [(w5 id).1] at a b'
+          exact ⟨a, b'⟩
+    | _ => simp [retTarget] at hop
+  refine ⟨key.1, (behaviour_of_text ha _ t hS).2.2 s.nStubs (by rw [hnew]; omega) ?_ key.2⟩
+  rw [key.1]
+  have := overwrite_takeJ (env.pristine t) (jumpTo (env.stubAddr s.nStubs)); rw [C02L.jump_length] at this; exact this
+
+/-- **Operations on one target never change another target's class**: `other_targets_untouched` (bytes) with
+    `behaviour_stable` (class), over all reachable states. -/
+theorem other_targets_class_unchanged {env : Env} {nCb nS : Nat} (he : EnvOk env) (ha : AddrOk env nCb nS) (ops : List Op) (op : Op)
+    (f : Nat) (hS : (step env (run env (init env) ops) op).1.nStubs ≤ nS)
+    (hframe : (step env (run env (init env) ops) op).1.text f = (run env (init env) ops).text f) :
+    behaviour env (step env (run env (init env) ops) op).1 nCb f = behaviour env (run env (init env) ops) nCb f :=
+  behaviour_stable he ha ops op f hS hframe
 
 /-- the hypotheses of the theorems above are satisfiable by a non-trivial state: two builders mock the same 16-byte
     function one after the other, the first builder resets: the image is pristine again and the invariant's
@@ -346,7 +657,7 @@ def exEnv : Env where
   funcSize := fun _ => 64
   phSize := fun _ => 224
   fixOk := fun _ _ => true
-  cbAddr := fun k => BitVec.ofNat 64 (0x6b3900 + 8 * k)
+  cbAddr := fun k => BitVec.ofNat 64 (0x6b3900 + 8 * (k % 1024))
   stubAddr := fun n => BitVec.ofNat 64 (0xc000000000 + 16 * n)
 
 example : EnvOk exEnv := by intro f; simp [exEnv]
@@ -363,6 +674,35 @@ example : let s := run exEnv (init exEnv) [.keepS 0, .sapply 0 2007 1 none false
     s.text 7 ≠ exEnv.pristine 7 ∧ s.text 8 ≠ exEnv.pristine 8 ∧ s.scache 0 = some 100 ∧ s.shandle 0 = some 100 ∧
     s.scanceled 100 = false ∧ (step exEnv s (.reset 0)).1.text 7 = exEnv.pristine 7 ∧
     (step exEnv s (.reset 0)).1.text 8 = exEnv.pristine 8 := by decide
+
+example : AddrOk exEnv 4 16 := by
+  refine ⟨?_, ?_, ?_⟩
+  · intro k k' hk hk' h
+    have := congrArg BitVec.toNat h
+    simp only [exEnv, BitVec.toNat_ofNat] at this
+    omega
+  · intro n n' hn hn' h
+    have := congrArg BitVec.toNat h
+    simp only [exEnv, BitVec.toNat_ofNat] at this
+    omega
+  · intro k n hn h
+    have := congrArg BitVec.toNat h
+    simp only [exEnv, BitVec.toNat_ofNat] at this
+    omega
+
+/-- hypotheses of `apply_class` / `ret_class` / `behaviour_stable`: a callback through a kept struct mocker, then a stub on
+    another function through a kept handle; both succeed, a new stub is created, the first target's class is unchanged -/
+example : let s := run exEnv (init exEnv) [.keepS 0, .sapply 0 2007 1 none true, .keep 0 3]
+    applyTarget (run exEnv (init exEnv) [.keepS 0]) (.sapply 0 2007 1 none true) = some (7, 1) ∧
+    retTarget s (.retH 0 3) = some 3 ∧ (step exEnv s (.retH 0 3)).2 = none ∧
+    (step exEnv s (.retH 0 3)).1.nStubs = s.nStubs + 1 ∧ (step exEnv s (.retH 0 3)).1.nStubs ≤ 16 ∧
+    behaviour exEnv (step exEnv s (.retH 0 3)).1 4 3 = .stub 0 ∧ behaviour exEnv (step exEnv s (.retH 0 3)).1 4 7 = .cb 1 := by
+  decide
+
+/-- hypotheses of `remock_after_reset_struct`: the kept struct mocker is the builder's -/
+example : let s := run exEnv (init exEnv) [.keepS 0, .sapply 0 2007 1 none false]
+    s.scache 0 = some 100 ∧ s.shandle 0 = some 100 ∧
+    (step exEnv (step exEnv s (.reset 0)).1 (.sapply 0 2007 2 none true)).2 = none := by decide
 
 example : 13 < exEnv.funcSize (3 % 1000) ∧ Gen.Amd64.checkAlreadyPatch ((exEnv.pristine (3 % 1000)).take 13) = false := by decide
 
